@@ -163,7 +163,7 @@ def splitM (s : Str) : M (List Str) := do
   M.loop "split" (fun (acc : List Str) => do
       let t ← nextToken
       if t.is .EOF || (added && t.lexpos + 1 == line.length) then return .inr acc
-      if t.is .WORD then
+      if t.is .WORD || t.is .ASSIGNMENT_WORD then
         let quoted := t.flags.contains .QUOTED
         let doublequoted ←
           if quoted then
